@@ -7,6 +7,8 @@
 mod util;
 mod c20_cache;
 mod c15_bbox;
+mod memsrc;
+mod pipeline;
 
 use std::path::PathBuf;
 
@@ -41,6 +43,7 @@ fn main() {
 	let res = match cmd.as_str() {
 		"c20" => c20_cache::run(&ctx),
 		"c15" => c15_bbox::run(&ctx),
+		"pipe" | "c02" | "c03" | "c06" | "c08" | "c09" => pipeline::run(&ctx, &cmd),
 		x => { eprintln!("unknown command {x}"); std::process::exit(2); }
 	};
 	if let Err(e) = res {
